@@ -161,6 +161,19 @@ thread_local! {
     static LAST_PANIC: RefCell<Option<(String, String)>> = const { RefCell::new(None) };
 }
 
+/// The first `max` bytes of `s`, cut back to a character boundary (messages
+/// quote generated text, which is full of multi-byte characters).
+pub fn clip(s: &str, max: usize) -> &str {
+    if s.len() <= max {
+        return s;
+    }
+    let mut cut = max;
+    while !s.is_char_boundary(cut) {
+        cut -= 1;
+    }
+    &s[..cut]
+}
+
 pub fn install_panic_hook() {
     panic::set_hook(Box::new(|info| {
         let loc = match info.location() {
